@@ -229,3 +229,31 @@ func (e *Engine) ContractsFor(prop string) []*Contract {
 	sort.Slice(out, func(i, j int) bool { return out[i].Key < out[j].Key })
 	return out
 }
+
+// globalFuncInit: the function a package-level function variable is initialised with, if
+// the package initialiser stores exactly one function into it.
+func (e *Engine) globalFuncInit(g *ssa.Global) *ssa.Function {
+	if g.Pkg == nil {
+		return nil
+	}
+	init := g.Pkg.Func("init")
+	if init == nil {
+		return nil
+	}
+	var found *ssa.Function
+	n := 0
+	for _, b := range init.Blocks {
+		for _, in := range b.Instrs {
+			if st, ok := in.(*ssa.Store); ok && st.Addr == ssa.Value(g) {
+				n++
+				if f, ok := st.Val.(*ssa.Function); ok {
+					found = f
+				}
+			}
+		}
+	}
+	if n == 1 {
+		return found
+	}
+	return nil
+}
